@@ -258,7 +258,7 @@ func Family(prop, tier string) ([]Scenario, error) {
 		for _, n := range n12 {
 			for k := n + 1; k <= n+3 && k <= 4; k++ {
 				for g := 0; g <= 1; g++ {
-					s := Scenario{N: n, COE: true}
+					s := Scenario{N: n, COE: true, Census: fmt.Sprintf("N=%d goexits=%d", n, g)}
 					for i := 0; i < k; i++ {
 						o := OK
 						if i < g {
@@ -268,6 +268,22 @@ func Family(prop, tier string) ([]Scenario, error) {
 					}
 					out = append(out, s)
 				}
+			}
+		}
+		// census with skipped jobs: one failure and k-1 dependents; cancelled before the call
+		for _, n := range n12 {
+			for k := 2; k <= 4; k++ {
+				s := Scenario{N: n, COE: true, Census: fmt.Sprintf("N=%d fail+dependents", n)}
+				s.Jobs = append(s.Jobs, JobSpec{Out: Err})
+				for i := 1; i < k; i++ {
+					s.Jobs = append(s.Jobs, JobSpec{Out: OK, Deps: []int{0}})
+				}
+				out = append(out, s)
+				c := Scenario{N: n, COE: true, Census: fmt.Sprintf("N=%d precancelled", n)}
+				for i := 0; i < k; i++ {
+					c.Jobs = append(c.Jobs, JobSpec{Out: OK})
+				}
+				out = append(out, withCancel(c, true, false))
 			}
 		}
 		// default limit
@@ -301,6 +317,22 @@ func Family(prop, tier string) ([]Scenario, error) {
 		for _, s := range Core(2, n12, both, outs, 1) {
 			out = append(out, withEmitter(s, 1))
 		}
+		// jobs carry a context that gets cancelled, Wait is given a live one
+		for _, n := range n12 {
+			for _, coe := range both {
+				for _, g := range [][][]int{{nil, {0}}, {nil, nil, {0, 1}}} {
+					v := make([]string, len(g))
+					for i := range v {
+						v[i] = OK
+					}
+					a := withCancel(mk(n, coe, g, v), true, false)
+					a.WaitBg = true
+					b := withCancel(mk(n, coe, g, v), false, true)
+					b.WaitBg = true
+					out = append(out, a, b)
+				}
+			}
+		}
 		if prop == "C06" {
 			for _, s := range Core(2, []int{2}, both, okerr, 1) {
 				s.Twice = true
@@ -317,6 +349,22 @@ func Family(prop, tier string) ([]Scenario, error) {
 		out = append(out, shapes([][][]int{Indep4, Diamond4, FanIn4}, []int{2}, []bool{false}, okerr, 1)...)
 		for _, s := range cancelFamily(2, n12, th) {
 			if !s.COE {
+				out = append(out, s)
+			}
+		}
+		// a task failing with an error that wraps a context error while the
+		// directive's context is alive; a job carrying its own cancelled context
+		for _, n := range n12 {
+			for _, g := range [][][]int{{nil}, {nil, {0}}, {nil, nil}} {
+				for _, v := range Vectors(len(g), []string{OK, ErrCtx}, 1) {
+					out = append(out, mk(n, false, g, v), withCancel(mk(n, false, g, v), false, false))
+				}
+				v := make([]string, len(g))
+				for i := range v {
+					v[i] = OK
+				}
+				s := mk(n, false, g, v)
+				s.Jobs[0].OwnCtx = true
 				out = append(out, s)
 			}
 		}
